@@ -41,7 +41,7 @@ TIERS = {
 # PYTHONHASHSEED values and compares the shipped final values (the "different processes" clause)
 CROSS_PROCESS = {"quick": 64, "thorough": 320}
 LEVEL = {"C01": "exploration", "C16": "exploration", "C14": "fault_enumeration", "C15": "fault_enumeration", "C05": "exploration", "C13": "exploration", "C18": "exploration", "C19": "exploration", "C07": "exploration", "C08": "exploration"}
-WORKER_TIMEOUT = {"quick": 900, "thorough": 4 * 3600}
+WORKER_TIMEOUT = {"quick": 2400, "thorough": 6 * 3600}
 
 
 def child_env(hashseed):
